@@ -3,7 +3,7 @@ import Posmint.Model.ChainSpec
 Helper lemmas for C08 (the sliding window as a ring buffer): association-list lookups, the
 missed-bit array, frame lemmas for `slash` / `jail`, and the list facts about `lastW` / `slotOf`.
 -/
-namespace Posmint.Chain
+namespace Posmint.Chain.C
 
 /-! ### the order on addresses -/
 
@@ -466,4 +466,4 @@ theorem winUpd_rel (w : Nat) (hw : 0 < w) (si : Sign) (bits : List ((Addr × Int
     · subst h1; simp only []; omega
     · exact hrange e h1 hea
 
-end Posmint.Chain
+end Posmint.Chain.C
